@@ -999,7 +999,8 @@ class Gen:
                 code.append('VERIF_CHECK(%s > -1.0 && %s < %s, "UB: floating-point to unsigned conversion out of range");' % (e, e, float(2 ** tt[1]).hex()))
                 ex = self.mask('((%s)%s)' % (ct, e), tt)
             elif op == 'fptosi':
-                code.append('VERIF_CHECK(%s > %s && %s < %s, "UB: floating-point to signed conversion out of range");' % (e, float(-(2 ** (tt[1] - 1)) - 1).hex(), e, float(2 ** (tt[1] - 1)).hex()))
+                lo = ('%s > %s' % (e, float(-(2 ** (tt[1] - 1)) - 1).hex())) if tt[1] <= 52 else ('%s >= %s' % (e, float(-(2 ** (tt[1] - 1))).hex()))
+                code.append('VERIF_CHECK(%s && %s < %s, "UB: floating-point to signed conversion out of range");' % (lo, e, float(2 ** (tt[1] - 1)).hex()))
                 ex = self.mask('((%s)(%s)%s)' % (ct, cg.sctype(tt), e), tt)
             elif op == 'uitofp': ex = '((%s)%s)' % (ct, e)
             elif op == 'sitofp':
